@@ -450,7 +450,9 @@ def pred_c09(case, impl, model, ctx):
                 return False
         elif w[2].startswith("encode"):
             if not l.startswith("frames "):
-                return False
+                # C09 quantifies over completed calls: a call the library rejects (an id the script does not define - only a shrunk
+                # script has one) is not one; the comparison with the model still sees the line
+                return None
             bv = {vers.get(i) for i in w[5:]}
             for f in l.split(" ")[2:]:
                 b = bytes.fromhex(f[:16])
@@ -469,8 +471,11 @@ def pred_c10(case, impl, model, ctx):
     used = fresh = None
     used_args = fresh_args = None
     k = None
+    conf = {"e": {}, "f": {}}
     for o, l in zip(case.ops, impl):
         w = o.split(" ")
+        if w[0] == "enc" and w[2] in ("dev", "stream") and w[1] in conf and len(w) > 3:
+            conf[w[1]][w[2]] = w[3]
         if w[0] == "enc" and w[1] == "e" and w[2] == "seq":
             k = int(l.split(" ")[1]) if l.startswith("seq ") else None
         if w[0] == "enc" and w[2].startswith("encode"):
@@ -484,6 +489,8 @@ def pred_c10(case, impl, model, ctx):
     # call of the used encoder was removed compares unrelated calls: not applicable)
     if used_args != fresh_args or not used.startswith("frames ") or not fresh.startswith("frames "):
         return None
+    if conf["e"] != conf["f"]:
+        return None       # differently configured encoders (only a shrunk script has them): the predicate does not apply
     fu, ff = used.split(" ")[2:], fresh.split(" ")[2:]
     if len(fu) != len(ff):
         return False
